@@ -640,12 +640,15 @@ LEVEL_TEXT = ("Partial. Proved for ALL well-formed patterns, addresses (NUL-free
               "no size bound: (full) every match spells the pattern - literals verbatim, one of the alternatives, every "
               "index < N, path ends / continues after '/' as the pattern says - and returns the ':types' part "
               "(C05_no_spurious, C05_index_bound, C05_callback_index_bound, C05_match_sound); the type matcher admits "
-              "every alternative and nothing that is not an alternative or an extension of the last one "
-              "(C05_types_complete, C05_types_sound); the three copies of the type matcher agree (C05_copies_agree); the "
+              "exactly the alternatives and the proper extensions of the LAST non-empty alternative "
+              "(C05_types_complete, C05_types_sound, C05_types_ext_last_only, C05_match_types_exact; 'every "
+              "alternative is extensible' is C05_types_ext_every_refuted - the property text tolerates extensions, "
+              "the Python oracle gives no verdict on them, the model/implementation tie fixes them); the three copies of the type matcher agree (C05_copies_agree); the "
               "loop terminates for every pattern string (C05_path_total). (partial) every address that spells the pattern is "
               "matched UNDER alts_prefix_free and enum_delimited (C05_path_partial, C05_match_partial); without them the "
               "statement is false of the code (C05_path_refuted {a,ab}c/abc, C05_enum_refuted #2{1,a}/01): known findings "
-              "alt-not-prefix-free, enum-then-digit.")
+              "alt-not-prefix-free, enum-then-digit.  The classifier is narrower than the side conditions: a missing "
+              "match is excused only when the address itself needs the backtracking (miss_cause in the plug-in).")
 LEVEL_NOTE = ("Trusted: Coq kernel, extraction (ExtrOcamlBasic), OCaml driver, harness, generators, the Python Spec oracle. "
               "The C code is modelled by hand (coq/Match/MatchModel.v, follows the repaired rtosc_match_args) and related to "
               "the model by the exhaustive small-scope correspondence run under ASan. atoi on more than 9 digits is outside "
